@@ -428,6 +428,36 @@ theorem equiv_convert (s : Store) (h : WF s) : Equiv s s.convertToProto.kv :=
   equiv_convertLoop s h _ s.kv [] (equiv_refl s h) (fun _ hq => by cases hq)
     (fun x hx => List.dropWhile_subset _ hx)
 
+/-! ## the bulk iterator (`GetBulkIterator(start, limit)`, read by FSM.Snapshot, Persist and Restore) -/
+
+/-- a log index is visited iff it is stored and lies in `[start, limit)` -/
+theorem C09_bulk_log_mem (s : Store) (a b i : Nat) (ha : a < 2^64) (hb : b < 2^64) (hi : i < 2^64) :
+    be64 i ∈ s.bulkKeys a b ↔ (∃ v, (be64 i, v) ∈ s.kv) ∧ a ≤ i ∧ i < b := by
+  unfold Store.bulkKeys
+  simp only [List.mem_map, List.mem_filter, inRange]
+  constructor
+  · rintro ⟨e, ⟨hm, hr⟩, he⟩
+    refine ⟨⟨e.2, ?_⟩, ?_⟩
+    · rw [← he]; exact hm
+    · rw [he] at hr
+      simp only [be64_lt_decide i a hi ha, be64_lt_decide i b hi hb, Bool.and_eq_true, Bool.not_eq_true', decide_eq_true_eq,
+        decide_eq_false_iff_not, Nat.not_lt] at hr
+      exact hr
+  · rintro ⟨⟨v, hm⟩, h1, h2⟩
+    refine ⟨(be64 i, v), ⟨hm, ?_⟩, rfl⟩
+    simp only [be64_lt_decide i a hi ha, be64_lt_decide i b hi hb, Bool.and_eq_true, Bool.not_eq_true', decide_eq_true_eq,
+      decide_eq_false_iff_not, Nat.not_lt]
+    exact ⟨h1, h2⟩
+
+/-- an empty or inverted range visits no log entry: `limit ≤ start` is not "no upper bound" (the snapshot
+code passes `last+1` and, when everything was compacted, `first = last+1`) -/
+theorem C09_bulk_empty (s : Store) (a b i : Nat) (ha : a < 2^64) (hb : b < 2^64) (hi : i < 2^64) (h : b ≤ a) :
+    be64 i ∉ s.bulkKeys a b := by
+  rw [C09_bulk_log_mem s a b i ha hb hi]; omega
+
+example : (Store.storeLogs (Store.empty true) [⟨5, 1, 0, .raw [], [], 0, 0⟩, ⟨7, 1, 0, .raw [], [], 0, 0⟩]).bulkKeys 5 7 = [be64 5] := by decide
+example : (Store.storeLogs (Store.empty true) [⟨5, 1, 0, .raw [], [], 0, 0⟩, ⟨7, 1, 0, .raw [], [], 0, 0⟩]).bulkKeys 8 8 = [] := by decide
+
 theorem C09_convert_view (s : Store) (h : WF s) (i : Nat) (hi : i < 2^64) :
     (logView s.convertToProto i).map LogEntry.sem = (logView s i).map LogEntry.sem :=
   (equiv_convert s h).2.1 i hi
